@@ -40,6 +40,10 @@ GSETS = {
                         "where": ["T: 'a + Clone", "'b: 'a"]},
     "T,U=T,N=2 where": {"params": [ty("T", "Clone"), ty("U", "Clone", d="T"), cn("N", d="2")],
                         "where": ["U: Copy", "T: Iterator", "T::Item: Clone"]},
+    "T:HasA": {"params": [ty("T", "crate::sup::HasA")], "where": []},
+    "I": {"params": [ty("I")], "where": []},
+    "Output,Target": {"params": [ty("Output", "Clone"), ty("Target")], "where": []},
+    "Item,Err,Rhs": {"params": [ty("Item"), ty("Err"), ty("Rhs")], "where": ["Err: Clone"]},
     "'a:'static,E,X=42": {"params": [lt("'a", "'static"), ty("E", "Clone"), cn("X", d="42")], "where": []},
 }
 GSET_NAMES = list(GSETS)
@@ -119,7 +123,13 @@ SEL = {"owned": "SOwned", "ref": "SRef", "ref_mut": "SMut"}
 NAMING = {
     "plain": {"ty": "Ty", "f": ["a", "b", "c"], "v": ["Va", "Vb", "Vc"]},
     "raw": {"ty": "r#type", "f": ["r#fn", "r#match", "r#struct"], "v": ["r#fn", "r#struct", "r#trait"]},
+    # variants named after associated types / prelude items the expansions mention, fields named after their locals
+    "assoc1": {"ty": "Output", "f": ["value", "src", "rhs"], "v": ["Output", "Error", "Target"]},
+    "assoc2": {"ty": "Result", "f": ["iter", "idx", "request"], "v": ["Item", "IntoIter", "Err"]},
+    "assoc3": {"ty": "Option", "f": ["val", "f", "other"], "v": ["Ok", "Some", "None"]},
+    "assoc4": {"ty": "Target", "f": ["__0", "__1", "__derive_more_f"], "v": ["Err", "Output", "Self_"]},
 }
+ASSOC_NAMINGS = ["assoc1", "assoc2", "assoc3", "assoc4"]
 
 # ------------------------------------------------------------------ item representation
 
@@ -273,6 +283,85 @@ def pick_types(ctx, n, cls, distinct=False, cover=True):
     return out
 
 
+# ------------------------------------------------------------------ every way a field type can mention a type parameter
+
+# `crate::sup::Cnd<X>` implements the formatting traits, Error, AsRef/AsMut only when `X: sup::Mark`, which is never
+# provable for a type parameter: a field of such a type type-checks in the expansion iff the derive put the bound on the
+# field type into the where-clause, i.e. iff its scan of the field type found the parameter.  {T} = a type parameter,
+# {A} = a lifetime parameter with `T: 'a` declared.
+TYFORMS = {
+    "arg": "crate::sup::Cnd<{T}>",
+    "ref": "crate::sup::Cnd<&{A} {T}>",
+    "ref-mut": "crate::sup::Cnd<&{A} mut {T}>",
+    "ref-slice": "crate::sup::Cnd<&{A} [{T}]>",
+    "array": "crate::sup::Cnd<[{T}; 2]>",
+    "slice": "crate::sup::Cnd<[{T}]>",
+    "tuple": "crate::sup::Cnd<({T}, i32)>",
+    "tuple1": "crate::sup::Cnd<({T},)>",
+    "ptr-const": "crate::sup::Cnd<*const {T}>",
+    "ptr-mut": "crate::sup::Cnd<*mut {T}>",
+    "fn-input": "crate::sup::Cnd<fn({T})>",
+    "fn-input2": "crate::sup::Cnd<fn(i32, {T}) -> i32>",
+    "fn-output": "crate::sup::Cnd<fn() -> {T}>",
+    "fn-nested": "crate::sup::Cnd<fn(fn({T}))>",
+    "fn-sugar-input": "crate::sup::Cnd<dyn Fn({T}) -> i32>",
+    "fn-sugar-output": "crate::sup::Cnd<dyn Fn() -> {T}>",
+    "dyn-arg": "crate::sup::Cnd<dyn crate::sup::TrObj<{T}>>",
+    "dyn-arg-plus": "crate::sup::Cnd<dyn crate::sup::TrObj<{T}> + Send>",
+    "dyn-second-bound": "crate::sup::Cnd<dyn Send + crate::sup::TrObj<{T}>>",
+    "dyn-assoc": "crate::sup::Cnd<dyn crate::sup::Src<Out = {T}>>",
+    "dyn-assoc-std": "crate::sup::Cnd<dyn Iterator<Item = {T}>>",
+    "box-dyn-assoc": "Box<crate::sup::Cnd<dyn crate::sup::Src<Out = {T}>>>",
+    "qself-trait-arg": "<crate::sup::H as crate::sup::TrA<{T}>>::X",
+    "qself-self": "<{T} as crate::sup::HasA>::A",
+    "assoc": "{T}::A",
+    "nested": "crate::sup::Cnd<Vec<Option<{T}>>>",
+    "nested-box": "Box<crate::sup::Cnd<Box<{T}>>>",
+    "later-segment": "crate::sup::Cnd<core::option::Option<{T}>>",
+    "paren": "(crate::sup::Cnd<{T}>)",
+    "paren-inner": "crate::sup::Cnd<({T})>",
+    "second-arg": "crate::sup::Cnd2<i32, {T}>",
+}
+NEEDS_HASA = {"qself-self", "assoc"}
+
+
+def tyform(name, g, rng=None):
+    """the field type of form `name` over generics g, or None when g cannot express it"""
+    tys = [p for p in g["params"] if p["k"] == "ty"]
+    if not tys:
+        return None
+    t = tys[0]
+    if name in NEEDS_HASA and "crate::sup::HasA" not in t["b"]:
+        return None
+    tpl = TYFORMS[name]
+    a = None
+    if "{A}" in tpl:
+        lts = [p["n"] for p in g["params"] if p["k"] == "lt"]
+        ok = [l for l in lts if l in t["b"] or any(w.replace(" ", "").startswith(t["n"] + ":") and l in w for w in g["where"])]
+        if not ok:
+            return None
+        a = ok[0]
+    return tpl.replace("{T}", t["n"]).replace("{A}", a or "")
+
+
+def compatible_gsets(attr):
+    """generic parameter sets on which an attribute variant is expressible (None = all)"""
+    if not attr.startswith("tyform"):
+        return None
+    name = attr.split(":", 1)[1]
+    kind = attr.split(":", 1)[0]
+    out = []
+    for gn, g in GSETS.items():
+        t = tyform(name, g)
+        if t is None:
+            continue
+        need = {p["n"] for p in g["params"] if p["k"] in ("lt", "ty")}
+        if kind in ("tyform", "tyform-src") and not need <= set(free_names(t, g)):
+            continue        # single-field shapes: the field has to mention every parameter
+        out.append(gn)
+    return out
+
+
 # ------------------------------------------------------------------ a generated case
 
 
@@ -411,6 +500,16 @@ def snake(tr):
 FMT_SPEC = {"Display": "", "Binary": ":b", "Octal": ":o", "LowerHex": ":x", "UpperHex": ":X", "LowerExp": ":e",
             "UpperExp": ":E", "Pointer": ":p", "Debug": ":?"}
 
+# forms of a source type for derive(Error): utils.rs is_type_parameter_used_in_type (since 8a39960 it descends arrays,
+# slices, groups, parentheses, raw pointers, tuples, fn pointers, trait objects, associated-type bindings and
+# parenthesised path arguments as well as paths and references).  Left out: forms with a non-'static lifetime (a source
+# must be 'static) and `qself-trait-arg` (`<H as TrA<T>>::X: 'static` does not give rustc `T: 'static`: E0310, an
+# artefact of the helper projection, not of the derive).
+ERROR_SOURCE_FORMS = ["arg", "nested", "nested-box", "later-segment", "second-arg", "qself-self", "assoc",
+                      "array", "slice", "tuple", "tuple1", "ptr-const", "ptr-mut", "fn-input", "fn-input2",
+                      "fn-output", "fn-nested", "fn-sugar-input", "fn-sugar-output", "dyn-arg", "dyn-arg-plus",
+                      "dyn-second-bound", "dyn-assoc", "dyn-assoc-std", "box-dyn-assoc", "paren", "paren-inner"]
+
 ADD = ["Add", "Sub", "BitAnd", "BitOr", "BitXor"]
 ADD_ASSIGN = [x + "Assign" for x in ADD]
 MUL = ["Mul", "Div", "Rem", "Shr", "Shl"]
@@ -474,7 +573,8 @@ VARIANTS["Index"] = [("t1", "none"), ("n1", "none"), ("t2", "marker"), ("n2", "m
 VARIANTS["IndexMut"] = list(VARIANTS["Index"])
 VARIANTS["Into"] = [("unit", "none"), ("t1", "none"), ("t2", "none"), ("n1", "none"), ("n2", "none"),
                     ("t1", "refs"), ("n2", "refs"), ("t1", "types"), ("t2", "skip"), ("n2", "field")]
-VARIANTS["Into"] += [("t0", "none"), ("n0", "none")]
+VARIANTS["Into"] += [("t0", "none"), ("n0", "none"), ("t1", "wrapped"), ("n2", "wrapped-generic"), ("n2", "field-wrapped"),
+                     ("t2", "wrapped-tuple")]
 VARIANTS["IntoIterator"] = [("t1", "none"), ("n1", "none"), ("t1", "refs"), ("n1", "refs"), ("t2", "marker"),
                             ("n2", "marker-refs"), ("t2", "ignore-other")]
 VARIANTS["IsVariant"] = [("em", "none"), ("eu", "none"), ("em", "ignore"), ("et", "none")]
@@ -490,8 +590,81 @@ VARIANTS["TryFrom"] += [("esu", "repr"), ("es", "repr"), ("en", "repr")]
 VARIANTS["TryInto"] = [("em", "none"), ("em", "refs"), ("em", "ignore"), ("e1", "none"), ("es", "none"), ("esu", "none"),
                        ("em", "ignore-nonunit"), ("en", "none"), ("es", "refs")]
 
+for f_ in TYFORMS:
+    # the scans of field types for type parameters: fmt `contains_generics`, AsRef `GenericsSearch::any_in`,
+    # Error `is_type_parameter_used_in_type`
+    VARIANTS["Debug"] += [("t1", "tyform:" + f_), ("n2", "tyform-fmt:" + f_)]
+    VARIANTS["Display"] += [("t1", "tyform:" + f_), ("n2", "tyform-fmt:" + f_), ("e1", "tyform-enum:" + f_)]
+    VARIANTS["AsRef"] += [("t1", "tyform-asref:" + f_)]
+    VARIANTS["AsMut"] += [("n2", "tyform-asref:" + f_)]
+    if f_ in ERROR_SOURCE_FORMS:
+        VARIANTS["Error"] += [("t1", "tyform-src:" + f_), ("n2", "tyform-srcn:" + f_)]
+for i_, d in enumerate(FMT_TRAITS[1:]):
+    fs_ = list(TYFORMS)
+    for j_ in range(5):
+        f_ = fs_[(i_ * 5 + j_ * 7) % len(fs_)]
+        VARIANTS[d] += [("t1", "tyform:" + f_), ("n2", "tyform-fmt:" + f_)]
+
+# spelling variation: the same attribute with trailing commas ("ta": at every list level, "ti": inside the named groups
+# only - an inner trailing comma followed by an outer item -, "to": after the last outer item only)
+for d_ in list(VARIANTS):
+    extra_ = []
+    for (sh_, at_) in VARIANTS[d_]:
+        if at_ == "none" or at_.startswith("tyform"):
+            continue
+        extra_.append((sh_, at_ + "~ta"))
+        if d_ in ("Into", "TryInto", "Unwrap", "TryUnwrap", "IntoIterator", "AsRef", "AsMut", "From", "Error", "Display",
+                  "Debug"):
+            extra_ += [(sh_, at_ + "~ti"), (sh_, at_ + "~to")]
+    VARIANTS[d_] += extra_
+
 ALL_DERIVES = list(VARIANTS)
 FLAVOURS = ["plain", "deprecated", "uninhabited"]
+
+
+def respell(text, mode):
+    """trailing commas in the argument lists of a helper attribute: "to" after the last item of the attribute's own list,
+    "ti" after the last item of every named group inside it (`owned(..)`, `ref(..)`, `bound(..)`, ...), "ta" both.
+    String literals are left alone; bare parentheses (tuple / parenthesised types, where a comma changes the type) too."""
+    out = []
+    stack = []          # (named, nonempty-so-far, last significant char)
+    i, n = 0, len(text)
+    last = ""
+    prev_ident = False
+    while i < n:
+        ch = text[i]
+        if ch == '"':
+            j = i + 1
+            while j < n and text[j] != '"':
+                if text[j] == "\\":
+                    j += 1
+                j += 1
+            out.append(text[i:j + 1])
+            i = j + 1
+            last, prev_ident = '"', False
+            continue
+        if ch == "(":
+            stack.append([prev_ident, False, ""])
+            out.append(ch)
+            last, prev_ident = "(", False
+            i += 1
+            continue
+        if ch == ")":
+            named, nonempty, _ = stack.pop()
+            depth = len(stack) + 1
+            want = (depth == 1 and mode in ("to", "ta")) or (depth >= 2 and named and mode in ("ti", "ta"))
+            if want and last not in ("(", ","):
+                out.append(",")
+            out.append(ch)
+            last, prev_ident = ")", False
+            i += 1
+            continue
+        out.append(ch)
+        if not ch.isspace():
+            last = ch
+            prev_ident = ch.isalnum() or ch == "_"
+        i += 1
+    return "".join(out)
 
 
 def build(derive, shape, gname, naming, attr, flavour, rng):
@@ -499,11 +672,21 @@ def build(derive, shape, gname, naming, attr, flavour, rng):
     g = GSETS[gname]
     ctx = Ctx(g, NAMING[naming], rng)
     ctx.unin = flavour == "uninhabited"
-    c = Case(derive, shape, gname, naming, attr, flavour)
+    base, _, spelling = attr.partition("~")
+    c = Case(derive, shape, gname, naming, base, flavour)
     it = BUILDERS[group_of(derive)](c, ctx)
     if it is None:
         return None
+    c.attr = attr
     c.item = it
+    if spelling:
+        changed = False
+        for holder in [it] + it.all_fields() + list(it.variants):
+            new = [respell(a, spelling) for a in holder.attrs]
+            changed = changed or new != holder.attrs
+            holder.attrs = new
+        if not changed:
+            return None
     # ---- flavour
     if flavour == "deprecated":
         if it.kind == "struct":
@@ -654,6 +837,22 @@ def b_asref(c, ctx):
             it = mk_struct(ctx, fk, ["String"])
             it.attrs.append("#[%s(str, String)]" % an)
         c.families = ["FAsRef %s (AsPlain %s)" % (tr, u_("str", g)), "FAsRef %s (AsPlain %s)" % (tr, u_("String", g))]
+    elif c.attr.startswith("tyform-asref:"):
+        if ctx.unin:
+            return None
+        t = tyform(c.attr.split(":", 1)[1], g)
+        if t is None:
+            return None
+        need = {p["n"] for p in g["params"] if p["k"] in ("lt", "ty")} - set(free_names(t, g))
+        if c.shape == "t1":
+            if need:
+                return None
+            it = mk_struct(ctx, "tuple", [t])
+            it.attrs.append("#[%s(str)]" % an)
+        else:
+            it = mk_struct(ctx, "named", [t, uni(g)])
+            it.fields[0].attrs.append("#[%s(str)]" % an)
+        c.families = ["FAsRef %s (AsForwarded %s %s)" % (tr, u_(t, g), u_("str", g))]
     elif c.attr == "types-generic":
         if not tys:
             return None
@@ -755,6 +954,24 @@ def b_fmt_common(c, ctx, trait, an, cls):
         it.attrs.append('#[%s(rename_all = "kebab-case")]' % an)
         if c.attr == "rename_all-variant":
             it.variants[1].attrs.append('#[%s(rename_all = "SCREAMING_SNAKE_CASE")]' % an)
+    elif c.attr.startswith("tyform"):
+        kind, name = c.attr.split(":", 1)
+        if ctx.unin:
+            return None
+        t = tyform(name, g)
+        if t is None:
+            return None
+        if kind == "tyform":
+            # one field, formatted by delegation
+            if not {p["n"] for p in g["params"] if p["k"] in ("lt", "ty")} <= set(free_names(t, g)):
+                return None
+            it = mk_struct(ctx, "tuple", [t])
+        elif kind == "tyform-fmt":
+            it = mk_struct(ctx, "named", [t, uni(g)])
+            it.attrs.append('#[%s("<{%s}>", %s)]' % (an, spec, it.fields[0].name))
+        else:
+            it = mk_enum(ctx, [("tuple", [t]), ("named", [uni(g)]), ("unit", [])])
+            it.variants[1].attrs.append('#[%s("other")]' % an)
     elif c.attr == "fmt-debug":
         # another formatting trait inside the literal: the bound must follow the placeholder, not the derived trait
         it = struct_of(ctx, c.shape, "debug")
@@ -837,6 +1054,24 @@ def b_error(c, ctx):
         need = set(lts + tys) - set(free_names(exclude, g))
         return uni(g) if need else ctx.rng.choice(["i32", "String", uni(g)])
 
+    if c.attr.startswith("tyform-src"):
+        if ctx.unin:
+            return None
+        t = tyform(c.attr.split(":", 1)[1], g)
+        if t is None or lts:
+            return None
+        if c.shape == "t1":
+            if set(tys) - set(free_names(t, g)):
+                return None
+            it = mk_struct(ctx, "tuple", [t])
+        else:
+            it = mk_struct(ctx, "named", [t, uni(g)])
+            it.fields[0].name = "source"
+        # std's derive(Debug) would bound the parameters, not the field type: write Debug by hand as well
+        it.extra.append(error_display_impl(it).replace("::core::fmt::Display for", "::core::fmt::Debug for"))
+        it.extra.append(error_display_impl(it))
+        c.fam_hook = ("error",)
+        return it
     if c.shape in ("unit", "eu"):
         it = any_of(ctx, c.shape, "any")
     elif c.shape == "t1":
@@ -1057,6 +1292,21 @@ def b_into(c, ctx):
         it = mk_struct(ctx, "tuple", ["i32"])
         it.attrs.append("#[into(i64, i128)]")
         c.families = [fam("owned", ["i64"]), fam("owned", ["i128"])]
+    elif c.attr == "wrapped":
+        if has_lt_or_ty(g) or ctx.unin:
+            return None
+        it = mk_struct(ctx, "tuple", ["i32"])
+        it.attrs.append("#[into(owned(i64, i128), ref(i32), ref_mut)]")
+        c.families = [fam("owned", ["i64"]), fam("owned", ["i128"]), fam("ref", ["i32"]), fam("ref_mut", ["i32"])]
+    elif c.attr in ("wrapped-generic", "wrapped-tuple"):
+        it.attrs.append("#[into(owned((%s)), ref, ref_mut)]" % ", ".join(ts))
+        c.families = [fam(s_, ts) for s_ in ("owned", "ref", "ref_mut")]
+    elif c.attr == "field-wrapped":
+        if has_lt_or_ty(g) or ctx.unin:
+            return None
+        it = mk_struct(ctx, "named", ["i32", "u8"])
+        it.fields[0].attrs.append("#[into(owned(i64), ref)]")
+        c.families = [fam("owned", ["i64"]), fam("ref", ["i32"])]
     elif c.attr == "skip":
         it.fields[1].ty = "bool" if not (set(free_names(ts[1], g)) - set(free_names(ts[0], g))) else ts[1]
         if set(free_names(it.fields[1].ty, g)) - set(free_names(ts[0], g)):
@@ -1239,6 +1489,35 @@ pub mod sup {
             impl<__Y: ?Sized, $($gen)*> AsMut<__Y> for $t { fn as_mut(&mut self) -> &mut __Y { unimplemented!() } }
         };
     }
+    /// never implemented for a type mentioning a generic parameter of a case
+    pub trait Mark {}
+    /// formattable / an error / AsRef only under a condition the expansion cannot prove for a type parameter, so a
+    /// field of this type compiles only if the derive bounded the field type itself
+    pub struct Cnd<X: ?Sized>(pub PhantomData<X>);
+    pub struct Cnd2<W, X: ?Sized>(pub PhantomData<W>, pub PhantomData<X>);
+    impl<X: ?Sized + Mark> fmt::Debug for Cnd<X> { fn fmt(&self, f: &mut fmt::Formatter<'_>) -> fmt::Result { f.write_str("C") } }
+    fmt_impl!([X: ?Sized + Mark] Cnd<X>, Display); fmt_impl!([X: ?Sized + Mark] Cnd<X>, Binary);
+    fmt_impl!([X: ?Sized + Mark] Cnd<X>, Octal); fmt_impl!([X: ?Sized + Mark] Cnd<X>, LowerHex);
+    fmt_impl!([X: ?Sized + Mark] Cnd<X>, UpperHex); fmt_impl!([X: ?Sized + Mark] Cnd<X>, LowerExp);
+    fmt_impl!([X: ?Sized + Mark] Cnd<X>, UpperExp); fmt_impl!([X: ?Sized + Mark] Cnd<X>, Pointer);
+    impl<X: ?Sized + Mark> std::error::Error for Cnd<X> {}
+    impl<X: ?Sized + Mark, Y: ?Sized> AsRef<Y> for Cnd<X> { fn as_ref(&self) -> &Y { unimplemented!() } }
+    impl<X: ?Sized + Mark, Y: ?Sized> AsMut<Y> for Cnd<X> { fn as_mut(&mut self) -> &mut Y { unimplemented!() } }
+    impl<W, X: ?Sized + Mark> fmt::Debug for Cnd2<W, X> { fn fmt(&self, f: &mut fmt::Formatter<'_>) -> fmt::Result { f.write_str("C") } }
+    fmt_impl!([W, X: ?Sized + Mark] Cnd2<W, X>, Display); fmt_impl!([W, X: ?Sized + Mark] Cnd2<W, X>, Binary);
+    fmt_impl!([W, X: ?Sized + Mark] Cnd2<W, X>, Octal); fmt_impl!([W, X: ?Sized + Mark] Cnd2<W, X>, LowerHex);
+    fmt_impl!([W, X: ?Sized + Mark] Cnd2<W, X>, UpperHex); fmt_impl!([W, X: ?Sized + Mark] Cnd2<W, X>, LowerExp);
+    fmt_impl!([W, X: ?Sized + Mark] Cnd2<W, X>, UpperExp); fmt_impl!([W, X: ?Sized + Mark] Cnd2<W, X>, Pointer);
+    impl<W, X: ?Sized + Mark> std::error::Error for Cnd2<W, X> {}
+    impl<W, X: ?Sized + Mark, Y: ?Sized> AsRef<Y> for Cnd2<W, X> { fn as_ref(&self) -> &Y { unimplemented!() } }
+    impl<W, X: ?Sized + Mark, Y: ?Sized> AsMut<Y> for Cnd2<W, X> { fn as_mut(&mut self) -> &mut Y { unimplemented!() } }
+    pub trait TrObj<A> {}
+    pub trait Src { type Out; }
+    pub trait TrA<A> { type X; }
+    pub struct H;
+    impl<A> TrA<A> for H { type X = Cnd<A>; }
+    pub trait HasA { type A; }
+
     everything!([X: ?Sized] P<X>, P(PhantomData));
     everything!([] Void, unreachable!());
 }
